@@ -782,10 +782,13 @@ fn sampled_share(boxes: &[B], i: usize, m: usize) -> f64 {
 /// result of one call of the own-area functions: Ok(shares, areas), Err("P") on a panic, Err("T") when the call did
 /// not return within the watchdog time (GEOM_TIMEOUT seconds, default 20; a normal call takes milliseconds)
 fn shares_of(boxes: &[B]) -> Result<(Vec<f32>, Vec<f64>), &'static str> {
-    let bs: Vec<B> = boxes.to_vec();
+    shares_of_ubs(boxes.iter().map(|b| b.ub()).collect())
+}
+
+/// the same on boxes that were prepared by the caller (API sequences: generated vertices, later mutations, clones)
+fn shares_of_ubs(ubs: Vec<Universal2DBox>) -> Result<(Vec<f32>, Vec<f64>), &'static str> {
     let (tx, rx) = std::sync::mpsc::channel();
     std::thread::spawn(move || {
-        let ubs: Vec<Universal2DBox> = bs.iter().map(|b| b.ub()).collect();
         let r = guarded(|| {
             let refs: Vec<&Universal2DBox> = ubs.iter().collect();
             let own = exclusively_owned_areas(refs.as_ref());
@@ -799,6 +802,43 @@ fn shares_of(boxes: &[B]) -> Result<(Vec<f32>, Vec<f64>), &'static str> {
         Ok(Some(v)) => Ok(v),
         Ok(None) => Err("P"),
         Err(_) => Err("T"),
+    }
+}
+
+fn shares_txt(r: &Result<(Vec<f32>, Vec<f64>), &'static str>) -> String {
+    match r {
+        Err(e) => e.to_string(),
+        Ok((sh, own)) => format!(
+            "{}/{}",
+            sh.iter().map(|x| f32b(*x)).collect::<Vec<_>>().join(","),
+            own.iter().map(|x| f64b(*x)).collect::<Vec<_>>().join(",")
+        ),
+    }
+}
+
+/// C15 API sequences: every box of the set goes through its own op list (gen_vertices, mutations, clones ...); the
+/// own-area functions are called on the resulting boxes (D), on clones of them (Dc) and on FRESH boxes built from the
+/// current field values (F)
+fn eval_set_seq(k: usize, boxes: &[B], ops: &[Vec<Op>]) {
+    let dirty = || -> Vec<Universal2DBox> { boxes.iter().zip(ops.iter()).map(|(b, o)| apply_ops(b, o)).collect() };
+    let cur: Vec<B> = dirty().iter().map(fresh_of).collect();
+    let d = shares_of_ubs(dirty());
+    let dc = shares_of_ubs(dirty().iter().map(|x| x.clone()).collect());
+    let f = shares_of_ubs(cur.iter().map(|b| b.ub()).collect());
+    println!(
+        "sseq {} boxes={} ops={} cur={} D={} Dc={} F={}",
+        k,
+        boxes.iter().map(|b| b.txt()).collect::<Vec<_>>().join(";"),
+        ops.iter().map(|o| ops_txt(o)).collect::<Vec<_>>().join("|"),
+        cur.iter().map(|b| b.txt()).collect::<Vec<_>>().join(";"),
+        shares_txt(&d),
+        shares_txt(&dc),
+        shares_txt(&f)
+    );
+    if matches!(d, Err("T")) || matches!(dc, Err("T")) || matches!(f, Err("T")) {
+        use std::io::Write;
+        let _ = std::io::stdout().flush();
+        std::process::exit(3);
     }
 }
 
@@ -1135,6 +1175,51 @@ fn main() {
                 k += 1;
             }
         }
+        "setseqs" => {
+            let from: usize = a.rest.iter().position(|x| x == "--from").map(|i| a.rest[i + 1].parse().unwrap()).unwrap_or(0);
+            let mut k = 0usize;
+            // corpus: a small box prepared far away and then moved into a big one must own nothing
+            let big = B { xc: 0.0, yc: 0.0, angle: Some(0.2), aspect: 1.0, h: 20.0 };
+            let small = B { xc: 100.0, yc: 100.0, angle: Some(0.3), aspect: 1.0, h: 2.0 };
+            if k >= from {
+                eval_set_seq(k, &[big, small], &[vec![], vec![Op::Gen, Op::SetXc(0.0), Op::SetYc(0.0)]]);
+            }
+            k += 1;
+            if k >= from {
+                eval_set_seq(k, &[big, small], &[vec![Op::Gen, Op::RotMut(1.0)], vec![Op::SetXc(9.0), Op::SetYc(0.0), Op::Gen, Op::SetH(6.0)]]);
+            }
+            k += 1;
+            for _ in 0..a.n {
+                let n = 2 + rng.below(4) as usize;
+                let mut v: Vec<B> = vec![];
+                let mut ops: Vec<Vec<Op>> = vec![];
+                for i in 0..n {
+                    let mut x = moderate_box(&mut rng);
+                    x.angle = Some(quant((rng.unit_f64() - 0.5) * 6.0, 8) + 0.0137 * (i as f32 + 1.0));
+                    let o = if rng.chance(2, 3) { gen_ops(&mut rng, &x) } else { vec![] };
+                    if i > 0 {
+                        // near the FINAL geometry of an earlier box
+                        let j = rng.below(i as u64) as usize;
+                        let base = fresh_of(&apply_ops(&v[j], &ops[j]));
+                        let fx = fresh_of(&apply_ops(&x, &o));
+                        let d = rng.unit_f64() * 0.7 * (base.radius() + fx.radius());
+                        let dir = rng.unit_f64() * 2.0 * std::f64::consts::PI;
+                        // shift the start so that the final centre lands near the base box
+                        let (tx, ty) = (quant(base.xc as f64 + d * dir.cos(), 6), quant(base.yc as f64 + d * dir.sin(), 6));
+                        x.xc += tx - fx.xc;
+                        x.yc += ty - fx.yc;
+                    }
+                    // ops that write absolute coordinates were generated relative to the old start: regenerate them
+                    let o = if i > 0 && rng.chance(1, 2) { gen_ops(&mut rng, &x) } else { o };
+                    v.push(x);
+                    ops.push(o);
+                }
+                if k >= from {
+                    eval_set_seq(k, &v, &ops);
+                }
+                k += 1;
+            }
+        }
         "sets" => {
             let only: Option<String> = a.rest.iter().position(|x| x == "--cfg").map(|i| a.rest[i + 1].clone());
             let from: usize = a.rest.iter().position(|x| x == "--from").map(|i| a.rest[i + 1].parse().unwrap()).unwrap_or(0);
@@ -1193,6 +1278,11 @@ fn main() {
                         let x = B::parse(get("a=").unwrap());
                         let y = B::parse(get("b=").unwrap());
                         eval_seq(k, &x, &ops_parse(get("opsa=").unwrap_or("-")), &y, &ops_parse(get("opsb=").unwrap_or("-")));
+                    }
+                    "sseq" => {
+                        let v: Vec<B> = get("boxes=").unwrap().split(';').map(B::parse).collect();
+                        let o: Vec<Vec<Op>> = get("ops=").unwrap().split('|').map(ops_parse).collect();
+                        eval_set_seq(k, &v, &o);
                     }
                     "set" => {
                         let cfg = get("cfg=").unwrap_or("replay");
